@@ -219,8 +219,9 @@ pub fn pair_event(data: &[u8], sh: bool, sched: &[Resp]) -> J {
 /// streams built around special shapes: a message whose own header spells a storage / serial pattern; a stored message whose
 /// storage header lacks the magic while its payload embeds a complete stored message followed by more bytes
 pub fn special_stream(r: &mut Rng, sh: bool) -> Vec<u8> {
-    let small = |r: &mut Rng| gen::message(r, &MsgOpts { storage: Some(sh), big: 8, max_args: 2 }).as_bytes();
+    let small = |r: &mut Rng| gen::ser(&gen::message(r, &MsgOpts { storage: Some(sh), big: 8, max_args: 2 }));
     let mut data = small(r);
+    if data.is_empty() { return data; }
     if r.coin() || !sh {
         // HTYP 0x44, MCNT 0x4C, LEN 0x5401 ("DLT\x01") or 0x5301 ("DLS\x01")
         let len = if r.coin() { 0x5401usize } else { 0x5301 };
@@ -247,7 +248,8 @@ pub fn random_stream(r: &mut Rng, sh: bool) -> Vec<u8> {
     for _ in 0..r.below(4) {
         let big = if r.one_in(15) { 3000 } else { 16 };
         let m = if r.one_in(40) { gen::boundary_message(r, Some(sh)) } else { gen::message(r, &MsgOpts { storage: Some(sh), big, max_args: 3 }) };
-        let mut b = m.as_bytes();
+        let mut b = gen::ser(&m);
+        if b.is_empty() { continue; }
         if r.one_in(6) { b = gen::mutate(r, &b, sh); }
         data.extend(b);
     }
@@ -305,8 +307,8 @@ pub fn record(mode: &str, seed: u64, n: usize, out: &mut Out) {
             }
             // systematic families on one small stream: all-1-byte, every 2- and 3-partition, interruption before every read
             let sh = r.coin();
-            let m1 = gen::message(&mut r, &MsgOpts { storage: Some(sh), big: 4, max_args: 1 }).as_bytes();
-            let m2 = gen::message(&mut r, &MsgOpts { storage: Some(sh), big: 4, max_args: 1 }).as_bytes();
+            let m1 = gen::ser(&gen::message(&mut r, &MsgOpts { storage: Some(sh), big: 4, max_args: 1 }));
+            let m2 = gen::ser(&gen::message(&mut r, &MsgOpts { storage: Some(sh), big: 4, max_args: 1 }));
             let mut data = m1.clone();
             data.extend(&m2);
             let len = data.len();
